@@ -36,6 +36,28 @@ C["RGLS254"] = 2**253 + 83877821160623817322862211711964450037
 C["MSPEC193"] = 2**192 + 133            # prime? not required: ring ops only
 C["MSPEC255"] = 2**255 - 31
 C["MSPEC256"] = 2**256 - 189
+# user-defined moduli of the define_gfgen! macro (3, 4, 6, 8 limbs), instantiated by the harness
+C["GG130"] = 2**130 - 5
+C["GG256"] = 2**256 - 189
+C["GG384"] = 2**384 - 317
+C["GG512"] = 2**512 - 569
+def _is_prime(n):
+    for a in (2, 3, 5, 7, 11, 13, 17, 19, 23, 29, 31, 37):
+        d, r = n - 1, 0
+        while d % 2 == 0:
+            d //= 2; r += 1
+        x = pow(a, d, n)
+        if x in (1, n - 1):
+            continue
+        for _ in range(r - 1):
+            x = x * x % n
+            if x == n - 1:
+                break
+        else:
+            return False
+    return True
+for _k in ("GG130", "GG256", "GG384", "GG512"):
+    assert _is_prime(C[_k]), _k
 # split_vartime correction thresholds documented in src/backend/mod.rs:
 # "about 1.73*2^253" = floor(2^254/(2/sqrt(3))) = floor(sqrt(3)*2^253), and "1.73*2^255"
 from math import isqrt
